@@ -68,9 +68,16 @@ func c10GenConf(r *rand.Rand, portBase int, gen int) ConfSpec {
 			cf.Services = append(cf.Services, svc)
 		}
 	}
-	if len(cf.Services) == 0 || r.Intn(4) == 0 {
-		p := portBase + 20 + r.Intn(3)
-		cf.Legacy = append(cf.Legacy, LegacyKey{KeySpec{fmt.Sprintf("g%d-legacy", gen), pick(r, cipherNames), randSecret(r)}, p})
+	if len(cf.Services) == 0 || r.Intn(2) == 0 {
+		// legacy per-port keys: the port is usually the same from one configuration to the next,
+		// its keys are not
+		p := portBase + 20
+		if r.Intn(4) == 0 {
+			p += 1 + r.Intn(2)
+		}
+		for i := 0; i < 1+r.Intn(2); i++ {
+			cf.Legacy = append(cf.Legacy, LegacyKey{KeySpec{fmt.Sprintf("g%d-legacy%d", gen, i), pick(r, cipherNames), randSecret(r)}, p})
+		}
 	}
 	return cf
 }
